@@ -5,6 +5,8 @@ History + executable model: every public call is recorded at the boundary; after
 write; and for all cells at the end) the answer is compared with a from-scratch compile of the
 same workbook with the current inputs.
 """
+import os
+
 from vp import realbooks, hist, wb, wbgen
 
 PROP = 'C01'
@@ -146,6 +148,26 @@ class Run:
         self.model = hist.Recorder(hist.reload(self.model.comp, fmt, self.tmpdir, 'r'), fmt)
         self.ctx.count('reloads')
 
+    def op_api(self, name):
+        """another public entry point that goes through the same state and must leave what evaluate returns as it
+        is: recalculate(), the printed value tree of a formula cell, a graph export"""
+        self.ops.append(['api', name])
+        comp = self.model.comp
+        if name == 'recalculate':
+            out = wb.outcome(comp.recalculate)
+        elif name == 'value_tree_str':
+            cells = [a for a in self.meta['formulas'] if self.model.has(a)]
+            out = wb.outcome(lambda: list(comp.value_tree_str(cells[0]))) if cells else ('v', None)
+        else:
+            out = wb.outcome(comp.export_to_gexf, os.path.join(self.tmpdir, 'c01.gexf'))
+        self.model.events.append(('call+ret', name, out[0]))
+        self.ctx.count('api_calls:' + name)
+        # the statement quantifies over set_value / evaluate histories: what these calls return or raise is not
+        # judged here (recalculate raises when the model holds a cell that cannot be built, and RuntimeError when
+        # evaluating adds cells to the model while it walks it); only the values evaluate returns afterwards are
+        if out[0] == 'x':
+            self.ctx.count(f'api_raised:{name}:{out[1]}')
+
     def compare(self, target, after_write=False):
         got = self.model.evaluate(tuple(target) if isinstance(target, list) else target)
         want = self.want(tuple(target) if isinstance(target, list) else target)
@@ -234,6 +256,8 @@ class Run:
             return ('set', a, v)
         if r < 0.50 and self.config != 'xlsx' and len(self.ops) > 2 and not self.has_poison:
             return ('reload', rng.choice(['yml', 'json', 'pkl']))
+        if r < 0.52:
+            return ('api', rng.choice(['recalculate', 'recalculate', 'value_tree_str', 'export_to_gexf']))
         if r < 0.54:
             # a range node whose cells are all plain inputs of a main sheet: written in one call
             ranges = []
@@ -273,6 +297,8 @@ class Run:
             self.op_eval(op[1])
         elif op[0] == 'reload':
             self.op_reload(op[1])
+        elif op[0] == 'api':
+            self.op_api(op[1])
 
     def finish(self):
         self.ops.append(['final'])
